@@ -413,7 +413,8 @@ MANIFEST_META = {
                   "be a two-sided inverse (exactly for Fractions and for indeterminate coefficients in d<=4, to 1e-7 for d>=6) and "
                   "equal the exact inverse; ZeroDivisionError is accepted only when the exact elimination finds the operand singular; "
                   "a/b, number/x and negative powers are compared with products of the inverse."
-                  " Also: the empty multivector as numerator, chains x.inv().inv() / y*y.inv() / 3/x.inv() inside register(symbolic=True), complex coefficients, list and callable numerators, and the algebra's cached unit blade must still read 1 after a scalar inverse.",
+                  " Also: the empty multivector as numerator, chains x.inv().inv() / y*y.inv() / 3/x.inv() inside register(symbolic=True), complex coefficients, list and callable numerators, and the algebra's cached unit blade must still read 1 after a scalar inverse."
+                  " The same element stored as complete grades in a graded algebra must have the same inverse.",
     "level_note": "Trusted: kv.refops.R.inv (Gauss-Jordan on the left-multiplication matrix), kv.ring.Q. Blade-count caps by dimension "
                   "are cost limits (dense d=5 inverses take minutes to generate) and are listed in the evidence rule.",
 }
